@@ -25,7 +25,12 @@ func Notify(c *mc.Chan[os.Signal], sig ...os.Signal) {
 // Deliver is called by a harness thread; it is a visible operation of that thread.
 func Deliver(site string, sig os.Signal) {
 	s := mc.Cur()
-	mc.Ext(site, "signal "+sig.String(), func() bool { return true }, func() {
+	// a signal sent before the agent installed its handler would terminate the process;
+	// the harness therefore only signals a running agent (enabled once a handler exists)
+	mc.Ext(site, "signal "+sig.String(), func() bool {
+		rs, _ := s.Values["vsignal"].([]reg)
+		return len(rs) > 0
+	}, func() {
 		rs, _ := s.Values["vsignal"].([]reg)
 		for _, r := range rs {
 			for _, x := range r.sigs {
